@@ -61,7 +61,8 @@ def function_of_statement(stmt, translated):
     best = None
     for fn in translated:
         key = re.sub(r"\W", "_", fn)
-        if stmt and (("c_" + key) in stmt or ("fold_" + key) in stmt or key.strip("_") in stmt):
+        short = re.sub(r"^_?mi_", "", fn)
+        if stmt and (("c_" + key) in stmt or ("fold_" + key) in stmt or ("c_" + short) in stmt or ("gen_" + short) in stmt):
             if best is None or len(fn) > len(best):
                 best = fn
     return best
